@@ -12,7 +12,7 @@ SPEC = {
         "alternative chainparams",
     ],
     "stages": [
-        gen("vh_c20", "c20_snapshot", 640, 10000, min_cases_quick=160,
+        gen("vh_c20", "c20_snapshot", 640, 10000, min_cases_quick=64, max_seconds_quick=300,
             floors={"activated": 0.1, "state-forbids": 0.1, "parseable-mutation-rejected": 0.3, "bg-validated": 0.02, "bg-mismatch-detected": 0.01},
             rule="fresh node + up to 8 mutated snapshot files; non-trivial = a coin-level mutation that keeps the file parseable was rejected"),
     ],
